@@ -20,8 +20,7 @@ Definition row_ok (cr : crow) : Prop :=
     r_node_name (cr_row cr) = [] /\ cr_uuid cr = [] /\ cls = kind_cls (cr_kind cr) /\ dec0 = kind_dec0 (cr_kind cr)
     /\ match cr_kind cr with
        | KBasic1 | KBasic2 => length acts <= 1
-       | KRandom _ => False
-       | KWait _ _ | KSplitValue _ _ | KSplitGroup _ => acts = []
+       | KWait _ _ | KSplitValue _ _ | KSplitGroup _ | KRandom _ => acts = []
        | KEnterFlow _ | KWebhook _ | KAirtime _ => length acts = 1
        end
   | _ => True
@@ -83,8 +82,7 @@ Definition payload_of (payloads : list sexp) : sexp := match payloads with p :: 
 Definition acts_ok (kind : nkind) (acts : list (id * sexp)) (payloads : list sexp) : Prop :=
   match kind with
   | KBasic1 | KBasic2 => map snd acts = payloads
-  | KRandom _ => False
-  | KWait _ _ | KSplitValue _ _ | KSplitGroup _ => acts = [] /\ payloads = []
+  | KWait _ _ | KSplitValue _ _ | KSplitGroup _ | KRandom _ => acts = [] /\ payloads = []
   | KEnterFlow _ | KWebhook _ | KAirtime _ => acts = [] /\ exists p, payloads = [p]
   end.
 
@@ -121,7 +119,10 @@ Proof.
     rewrite Hb. split; [|reflexivity].
     eapply NS_router with (cls := SPlain) (r := r); cbn; eauto; try (rewrite Hac; reflexivity).
     split; [constructor|split; [reflexivity|exact I]].
-  - contradiction.
+  - (* split_random *)
+    destruct Ha as [-> ->]. cbn [node_uuid]. intros H. injection H as <- <-. split; [|reflexivity].
+    eapply NS_random with (r := mkRandom (Some sv) []); cbn; eauto.
+    constructor; cbn; [reflexivity|reflexivity|constructor|constructor].
   - (* start_new_flow *)
     destruct Ha as [-> (p & ->)]. unfold new_enter_node. cbn [node_uuid]. destruct name as [|c0 nm]; [discriminate|].
     cbn. intros H. injection H as <- <-. split; [|exact I].
@@ -277,6 +278,7 @@ Proof.
     unfold row_action in Eacts. destruct kind; cbn [is_basic_kind acts_ok] in *; try contradiction.
     - exact (basic_acts _ _ _ _ Hacts Eacts).
     - exact (basic_acts _ _ _ _ Hacts Eacts).
+    - destruct (Hnone _ Eacts) as [(-> & H2 & H3 & H4)|Hne]; [|contradiction]. auto.
     - destruct (Hnone _ Eacts) as [(-> & H2 & H3 & H4)|Hne]; [|contradiction]. auto.
     - destruct (Hnone _ Eacts) as [(-> & H2 & H3 & H4)|Hne]; [|contradiction]. auto.
     - destruct (Hnone _ Eacts) as [(-> & H2 & H3 & H4)|Hne]; [|contradiction]. auto.
